@@ -11,6 +11,7 @@ a BytesIO that keeps its value when the channel closes it)."""
 import asyncio
 import io
 import os
+import re
 import shutil
 
 from . import common
@@ -320,3 +321,360 @@ def oracle_driver(case, obs):
     if obs["stray_files"]:
         return "unexpected files %r" % obs["stray_files"]
     return None
+
+
+# ------------------------------------------------------------------------------------------------
+# suite commandeer : driver A opens the connection and reads, driver B commandeers it, both read further, both close.
+#
+# What the unchanged tree does (Driver.commandeer / AsyncDriver.commandeer), the reference:
+#   * B takes A's transport and loggers; B.channel.open() is NOT called, so whatever channel_log B was constructed with
+#     (path, True, BytesIO, and its mode) is never opened, created, truncated or written by the commandeering;
+#   * if A's channel has an open channel log (A.channel.channel_log is not None) B.channel.channel_log becomes that very
+#     object: from then on reads through A and through B both append to A's sink, through one handle, in wire order;
+#     if A has no channel log, B.channel.channel_log stays None and reads through B are not logged at all;
+#   * closing either driver closes the shared sink (and the transport); closing the second one is harmless.
+# The oracle does not assume WHICH sink a read must go to beyond that: it observes, at every transport read, which
+# configured destination is the open channel log of the channel object that is reading (the "active" sink of that read),
+# and demands of every configured destination, after both drivers are closed: what it kept from before the session
+# (BytesIO value; file content if the FIRST open of the session was in append mode; the untouched file if nobody opened
+# it) followed by exactly the bytes of the reads it was the active sink of, CRs removed, in order, once.  And a
+# connection that had a channel log before the commandeering keeps one: no read after it is logged nowhere.
+# ------------------------------------------------------------------------------------------------
+CMD_SINKS_A = ["path", "path", "true", "bytesio", "bytesio", "none"]
+
+
+def _op_chunks(rng, op, prompt, gen_chunk):
+    if op[0] == "read":
+        return [gen_chunk(rng)]
+    out = []
+    for ph in _op_response(rng, op, prompt):
+        out += _cut(rng, ph, 4)
+    return out
+
+
+def gen_cmd_case(rng, i, gen_chunk):
+    stack, transport = COMBOS[i % len(COMBOS)]
+    prompt = rng.choice(PROMPTS)
+    user, password = "scrapli", rng.choice(["secret", "p%'w"])
+    login = []
+    if "telnet" in transport and rng.random() < 0.3:
+        for p in (rng.choice(BANNERS) + b"Username: ", b"Password: ", b"\r\n" + rng.choice(MOTDS) + prompt):
+            login += _cut(rng, p)
+    sink_a = rng.choice(CMD_SINKS_A)
+    rel = rng.choice(["same", "same", "same", "different", "different", "none"])
+    if rel == "same":
+        sink_b = sink_a
+    elif rel == "none":
+        sink_b = "none"
+    else:
+        sink_b = rng.choice([s for s in ("path2", "true", "bytesio2") if s != sink_a])
+    append_a = rng.random() < 0.5
+    append_b = append_a if (rel == "same" and rng.random() < 0.7) else rng.random() < 0.5
+    existing = {}
+    for dest in sorted(set([sink_a, sink_b]) - {"none"}):
+        if rng.random() < 0.45:
+            existing[dest] = rng.choice([b"old\r\n", b"\x1b[0mprev", b"x"]).hex()
+
+    def mk(who):
+        k = rng.choice(["read", "read", "get_prompt", "send_input"])
+        op = [k] if k in ("read", "get_prompt") else [k, rng.choice(CMDS)]
+        return {"who": who, "op": op, "chunks": [c.hex() for c in _op_chunks(rng, op, prompt, gen_chunk)]}
+    pre = [mk("A") for _ in range(rng.choice([0, 1, 1, 2, 3]))]
+    on_open_b = [mk("B")] if rng.random() < 0.25 else []
+    post = [mk(rng.choice("AB")) for _ in range(rng.choice([1, 2, 2, 3, 4]))]
+    return {"stack": stack, "transport": transport, "driver_a": rng.choice(["base", "generic"]), "driver_b": rng.choice(["base", "generic"]),
+            "login": [c.hex() for c in login], "user": user, "password": password, "host": rng.choice(["dev1", "10.0.0.1"]),
+            "port": rng.choice([22, 23]), "sink_a": sink_a, "sink_b": sink_b, "append_a": append_a, "append_b": append_b,
+            "existing": existing, "pre": pre, "on_open_b": on_open_b, "execute_on_open": rng.random() < 0.85, "post": post,
+            "close": rng.choice(["BA", "BA", "AB"])}
+
+
+def run_cmd_impl(case, workdir):
+    from .c20 import Starved, _Quiet, _tmp
+    d = _tmp(workdir, "cmd")
+    os.makedirs(d, exist_ok=True)
+    sync = case["stack"] == "sync"
+    files = {"path": os.path.join(d, "my channel.log"), "path2": os.path.join(d, "other.log"), "true": os.path.join(d, "scrapli_channel.log")}
+    bios = {}
+    dests = sorted(set([case["sink_a"], case["sink_b"]]) - {"none"})
+    for dest in dests:
+        ex = bytes.fromhex(case["existing"].get(dest, ""))
+        if dest.startswith("bytesio"):
+            bios[dest] = KeepBytesIO(ex)
+            bios[dest].seek(0, 2)
+        elif dest in case["existing"]:
+            with open(files[dest], "wb") as f:
+                f.write(ex)
+
+    def arg(sink):
+        if sink == "none":
+            return False
+        if sink == "true":
+            return True
+        return bios[sink] if sink.startswith("bytesio") else files[sink]
+
+    def label(log):
+        if log is None:
+            return None
+        for k, b in bios.items():
+            if log is b:
+                return k
+        name = getattr(log, "name", None)
+        if isinstance(name, str):
+            rp = os.path.realpath(os.path.join(d, name))
+            for k in dests:
+                if k in files and os.path.realpath(files[k]) == rp:
+                    return k
+        return "?"
+
+    script = [bytes.fromhex(c) for c in case["login"]]
+    events, res = [], []
+    cur = {"who": "A", "conn": None}
+
+    def nxt():
+        if not script:
+            raise Starved()
+        c = script.pop(0)
+        events.append(("r", cur["who"], c.hex(), label(cur["conn"].channel.channel_log)))
+        return c
+
+    def feed(item):
+        script.extend(bytes.fromhex(c) for c in item["chunks"])
+
+    def one_sync(conn, op):
+        if op[0] == "read":
+            return conn.channel.read()
+        if op[0] == "get_prompt":
+            return conn.channel.get_prompt().encode()
+        return conn.channel.send_input(op[1])[1]
+
+    async def one_async(conn, op):
+        if op[0] == "read":
+            return await conn.channel.read()
+        if op[0] == "get_prompt":
+            return (await conn.channel.get_prompt()).encode()
+        return (await conn.channel.send_input(op[1]))[1]
+
+    def outcome(name, r=None, e=None):
+        if e is None:
+            res.append((name, r.hex() if isinstance(r, bytes) else None))
+        else:
+            res.append((name, "Starved" if isinstance(e, Starved) else type(e).__name__))
+
+    def on_open_b_sync(conn):
+        cur.update(who="B", conn=conn)
+        for item in case["on_open_b"]:
+            feed(item)
+            one_sync(conn, tuple(item["op"]))
+
+    async def on_open_b_async(conn):
+        cur.update(who="B", conn=conn)
+        for item in case["on_open_b"]:
+            feed(item)
+            await one_async(conn, tuple(item["op"]))
+
+    def build(which):
+        cls = _driver_class({"stack": case["stack"], "driver": case["driver_" + which]})
+        sink = case["sink_" + which]
+        kw = {"on_open": None}             # (the generic drivers' default on_open reads the prompt)
+        if which == "b" and case["on_open_b"]:
+            kw["on_open"] = on_open_b_sync if sync else on_open_b_async
+        return cls(host=case["host"], port=case["port"], auth_username=case["user"], auth_password=case["password"],
+                   auth_strict_key=False, auth_bypass=not case["login"], transport=case["transport"], timeout_ops=0,
+                   timeout_transport=0, timeout_socket=0, channel_log=arg(sink),
+                   channel_log_mode="append" if case["append_" + which] else "write", **kw)
+
+    def script_transport(tr, who):
+        if sync:
+            tr.open = lambda: events.append(("topen", who, "", None))
+            tr.read = nxt if who == "A" else (lambda: (_ for _ in ()).throw(Starved()))
+        else:
+            async def _topen():
+                events.append(("topen", who, "", None))
+
+            async def _tread():
+                if who != "A":
+                    raise Starved()
+                return nxt()
+            tr.open, tr.read = _topen, _tread
+        tr.write = lambda channel_input: events.append(("w", cur["who"], bytes(channel_input).hex(), None))
+        tr.close = lambda: events.append(("tclose", cur["who"], "", None))
+        tr.isalive = lambda: True
+
+    def observe_open(conn, who):
+        real = conn.channel.open
+
+        def observed():
+            r = real()
+            events.append(("open", who, "", label(conn.channel.channel_log)))
+            return r
+        conn.channel.open = observed
+
+    cwd = os.getcwd()
+    os.chdir(d)
+    exc = None
+    try:
+        with _Quiet():
+            a, b = build("a"), build("b")
+            script_transport(a.transport, "A")
+            script_transport(b.transport, "B")
+            observe_open(a, "A")
+            observe_open(b, "B")
+            conns = {"A": a, "B": b}
+            if sync:
+                def step(name, who, fn):
+                    cur.update(who=who, conn=conns[who])
+                    try:
+                        outcome(name, fn())
+                    except Starved as e:
+                        outcome(name, e=e)
+                    except Exception as e:  # noqa
+                        outcome(name, e=e)
+                step("open", "A", a.open)
+                for item in case["pre"]:
+                    feed(item)
+                    step(item["op"][0], "A", lambda item=item: one_sync(a, tuple(item["op"])))
+                events.append(("cmd-begin", "B", "", None))
+                step("commandeer", "B", lambda: b.commandeer(a, execute_on_open=case["execute_on_open"]))
+                events.append(("cmd", "B", "", label(b.channel.channel_log)))
+                for item in case["post"]:
+                    feed(item)
+                    step(item["op"][0], item["who"], lambda item=item: one_sync(conns[item["who"]], tuple(item["op"])))
+                for who in case["close"]:
+                    step("close", who, conns[who].close)
+            else:
+                async def astep(name, who, mk):
+                    cur.update(who=who, conn=conns[who])
+                    try:
+                        outcome(name, await mk())
+                    except Starved as e:
+                        outcome(name, e=e)
+                    except Exception as e:  # noqa
+                        outcome(name, e=e)
+
+                async def go():
+                    await astep("open", "A", a.open)
+                    for item in case["pre"]:
+                        feed(item)
+                        await astep(item["op"][0], "A", lambda item=item: one_async(a, tuple(item["op"])))
+                    events.append(("cmd-begin", "B", "", None))
+                    await astep("commandeer", "B", lambda: b.commandeer(a, execute_on_open=case["execute_on_open"]))
+                    events.append(("cmd", "B", "", label(b.channel.channel_log)))
+                    for item in case["post"]:
+                        feed(item)
+                        await astep(item["op"][0], item["who"], lambda item=item: one_async(conns[item["who"]], tuple(item["op"])))
+                    for who in case["close"]:
+                        await astep("close", who, conns[who].close)
+                loop = VirtualTimeLoop()
+                try:
+                    loop.run_until_complete(go())
+                finally:
+                    loop.close()
+            # handles a driver opened for itself and that no close() released (never the case on the reference) are
+            # released here so that what they buffered is on disk when the files are read
+            for conn in (a, b):
+                lg = getattr(conn.channel, "channel_log", None)
+                try:
+                    if lg is not None and not lg.closed:
+                        events.append(("left-open", "A" if conn is a else "B", "", label(lg)))
+                        lg.close()
+                except Exception:  # noqa
+                    pass
+    except Exception as e:  # noqa
+        exc = type(e).__name__
+    finally:
+        os.chdir(cwd)
+    sinks = {}
+    for dest in dests:
+        if dest in bios:
+            v = bios[dest].kept if bios[dest].closed else bios[dest].getvalue()
+            sinks[dest] = None if v is None else v.hex()
+        else:
+            sinks[dest] = open(files[dest], "rb").read().hex() if os.path.exists(files[dest]) else None
+    stray = sorted(f for f in os.listdir(d) if os.path.join(d, f) not in [files[k] for k in dests if k in files])
+    shutil.rmtree(d, ignore_errors=True)
+    return {"sinks": sinks, "events": events, "results": res, "exc": exc, "stray_files": stray,
+            "served_chunks": [c for k, _, c, _ in events if k == "r"]}
+
+
+def cmd_expected(case, obs):
+    """{destination: bytes it must hold after both closes | None = no such file}, from the wire record and the observed
+    active sink of every read"""
+    want = {}
+    for dest in sorted(set([case["sink_a"], case["sink_b"]]) - {"none"}):
+        ex = bytes.fromhex(case["existing"][dest]) if dest in case["existing"] else None
+        openers = [who for k, who, _, lab in obs["events"] if k == "open" and lab == dest]
+        reads = b"".join(bytes.fromhex(c).replace(b"\r", b"") for k, _, c, lab in obs["events"] if k == "r" and lab == dest)
+        if dest.startswith("bytesio"):
+            want[dest] = (ex or b"") + reads
+        elif not openers and not reads:
+            want[dest] = ex                       # nobody opened it: untouched (or never created)
+        else:
+            first_append = case["append_a"] if (openers[:1] == ["A"] or not openers) else case["append_b"]
+            want[dest] = ((ex or b"") if first_append else b"") + reads
+    return want
+
+
+def oracle_cmd(case, obs):
+    if obs["exc"]:
+        return "session set-up raised %s" % obs["exc"]
+    for name, r in obs["results"]:
+        if name in ("open", "commandeer", "close") and r is not None and not (name == "open" and r == "Starved"):
+            return "%s() raised %s" % (name, r)
+    had_log = any(k == "open" and who == "A" and lab is not None for k, who, _, lab in obs["events"])
+    after = False
+    for k, who, c, lab in obs["events"]:
+        if k == "cmd-begin":
+            after = True
+        if k == "r" and lab == "?":
+            return "a read through driver %s was logged to a destination nobody configured" % who
+        if k == "r" and after and had_log and lab is None:
+            return ("the connection had a channel log before it was commandeered, but the channel of driver %s has none: %d bytes read "
+                    "through it are in no channel log" % (who, len(c) // 2))
+    want = cmd_expected(case, obs)
+    for dest, w in want.items():
+        g = obs["sinks"].get(dest)
+        g = None if g is None else bytes.fromhex(g)
+        if g != w:
+            who = "+".join(x for x, s in (("A", case["sink_a"]), ("B", case["sink_b"])) if s == dest)
+            return ("channel log %s (configured on driver %s) holds %r after both drivers are closed, but what it kept from before the session plus the "
+                    "bytes of the reads it was the open channel log of, CRs removed, is %r" % (dest, who, None if g is None else g[:80], None if w is None else w[:80]))
+    if obs["stray_files"]:
+        return "unexpected files %r" % obs["stray_files"]
+    return None
+
+
+def cmd_model_case(case, obs):
+    """what the ChanLog model (one log per connection, opened by the driver that opened it) is fed: A's sink kind and
+    previous content, channel.open() of A and EVERY read of the connection in wire order, whichever object read it"""
+    kind = {"path": "path", "true": "true", "bytesio": "bytesio", "none": "none"}[case["sink_a"]]
+    evs = [("open", "") if k == "open" else ("r", c) for k, who, c, _ in obs["events"] if (k == "open" and who == "A") or k == "r"]
+    return ({"sink": kind, "append": case["append_a"], "existing": case["existing"].get(case["sink_a"], ""), "events": evs},
+            {"sink": obs["sinks"].get(case["sink_a"]) if case["sink_a"] != "none" else None})
+
+
+def shrink_cmd(case, workdir, why):
+    def key(w):
+        return None if w is None else re.sub(r"\d+", "N", w)[:30]
+
+    def fails(c):
+        o = run_cmd_impl(c, workdir)
+        w = oracle_cmd(c, o)
+        return (o, w) if key(w) == key(why) else None
+    cur, best = case, fails(case)
+    if best is None:
+        return case, run_cmd_impl(case, workdir), why
+    changed = True
+    while changed:
+        changed = False
+        cands = [dict(cur, login=[])] if cur["login"] else []
+        cands += [dict(cur, on_open_b=[])] if cur["on_open_b"] else []
+        for part in ("post", "pre"):
+            cands += [dict(cur, **{part: cur[part][:j] + cur[part][j + 1:]}) for j in range(len(cur[part]))]
+        cands += [dict(cur, existing={k: v for k, v in cur["existing"].items() if k != d}) for d in cur["existing"]]
+        for cand in cands:
+            r = fails(cand)
+            if r:
+                cur, best, changed = cand, r, True
+                break
+    return cur, best[0], best[1]
